@@ -114,8 +114,11 @@ def attr_component(role, has, label=None, count=None, rc=None, units=None, value
     return out
 
 
-def set_component(typ, name=None):
-    d = ROLE['SET'] | 0x10 | (0x08 if name is not None else 0)
+SET_ROLES = {'SET': 0xE0, 'RDSET': 0xA0, 'RSET': 0xC0}          # ordinary, redundant and replacement sets: all are sets of objects
+
+
+def set_component(typ, name=None, role='SET'):
+    d = SET_ROLES[role] | 0x10 | (0x08 if name is not None else 0)
     return bytes([d]) + ident(typ) + (ident(name) if name is not None else b'')
 
 
